@@ -46,12 +46,14 @@ pub fn type_map() -> &'static TypeMap {
     TYPE_MAP.get_or_init(load_type_map)
 }
 
-pub fn diags_json(diagnostics: &Diagnostics) -> Value {
+pub fn diags_json(diagnostics: &Diagnostics, source: &str) -> Value {
+    let ok = |s: usize, e: usize| s <= e && e <= source.len() && source.is_char_boundary(s) && source.is_char_boundary(e);
     Value::Array(
         diagnostics
             .iter()
             .map(|d| {
                 json!({
+                    "in_range": ok(d.start_byte(), d.end_byte()) && d.labels().iter().all(|(r, _)| ok(r.start, r.end)),
                     "kind": match d.kind() { DiagnosticKind::Error => "error", DiagnosticKind::Warning => "warning" },
                     "start": d.start_byte(), "end": d.end_byte(), "msg": d.message(),
                     "labels": d.labels().iter().map(|(r, m)| json!([r.start, r.end, m])).collect::<Vec<_>>(),
@@ -75,7 +77,9 @@ pub fn run(case: &Value) -> Value {
         let errs: Vec<Value> = doc
             .collect_syntax_errors()
             .iter()
-            .map(|e| json!({"start": e.start_byte(), "end": e.end_byte(), "kind": format!("{:?}", e.kind())}))
+            .map(|e| json!({"start": e.start_byte(), "end": e.end_byte(), "kind": format!("{:?}", e.kind()),
+                            "in_range": e.start_byte() <= e.end_byte() && e.end_byte() <= doc.source().len()
+                                && doc.source().is_char_boundary(e.start_byte()) && doc.source().is_char_boundary(e.end_byte())}))
             .collect();
         return json!({"syntax_error": true, "syntax_errors": errs, "ui": null, "header": null, "built": false, "diags": []});
     }
@@ -97,5 +101,5 @@ pub fn run(case: &Value) -> Value {
         None => (None, None, false),
     };
     json!({"syntax_error": false, "ui": ui, "header": header, "built": built,
-           "has_error": diagnostics.has_error(), "diags": diags_json(&diagnostics)})
+           "has_error": diagnostics.has_error(), "diags": diags_json(&diagnostics, doc.source())})
 }
